@@ -25,13 +25,15 @@
 (***************************************************************************)
 EXTENDS Integers, Sequences, TLC
 
-T(t)   == [k |-> "t", t |-> t, gap |-> "sp",  lb |-> FALSE, semi |-> FALSE, hd |-> <<>>]
-TA(t)  == [k |-> "t", t |-> t, gap |-> "adj", lb |-> FALSE, semi |-> FALSE, hd |-> <<>>]
-TL(t)  == [k |-> "t", t |-> t, gap |-> "sp",  lb |-> TRUE,  semi |-> FALSE, hd |-> <<>>]
-TS(t)  == [k |-> "t", t |-> t, gap |-> "sp",  lb |-> TRUE,  semi |-> TRUE,  hd |-> <<>>]
-NL     == [k |-> "t", t |-> "\n", gap |-> "sp", lb |-> TRUE, semi |-> FALSE, hd |-> <<>>]
+T(t)   == [k |-> "t", t |-> t, gap |-> "sp",  lb |-> FALSE, semi |-> FALSE, hd |-> <<>>, nlk |-> ""]
+TA(t)  == [k |-> "t", t |-> t, gap |-> "adj", lb |-> FALSE, semi |-> FALSE, hd |-> <<>>, nlk |-> ""]
+TL(t)  == [k |-> "t", t |-> t, gap |-> "sp",  lb |-> TRUE,  semi |-> FALSE, hd |-> <<>>, nlk |-> ""]
+TS(t)  == [k |-> "t", t |-> t, gap |-> "sp",  lb |-> TRUE,  semi |-> TRUE,  hd |-> <<>>, nlk |-> ""]
+NL     == [k |-> "t", t |-> "\n", gap |-> "sp", lb |-> TRUE, semi |-> FALSE, hd |-> <<>>, nlk |-> "sep"]
+NLB    == [k |-> "t", t |-> "\n", gap |-> "sp", lb |-> TRUE, semi |-> FALSE, hd |-> <<>>, nlk |-> "lb"]   \* inside a linebreak
 THD(t, g, body, dl) == [k |-> "t", t |-> t, gap |-> g, lb |-> FALSE, semi |-> FALSE,
-                        hd |-> <<[body |-> body, dl |-> dl]>>]
+                        hd |-> <<[body |-> body, dl |-> dl]>>, nlk |-> ""]
+NLF    == [k |-> "t", t |-> "\n", gap |-> "sp", lb |-> FALSE, semi |-> FALSE, hd |-> <<>>, nlk |-> "sep"]   \* the newline that ends the command line
 M(m)   == [k |-> "m", m |-> m]
 
 (* nonterminal: name, depth, top (not inside a compound command), nh (no    *)
@@ -52,7 +54,7 @@ WLit(s) == <<M("w["), M("lit:" \o s), M("]w")>>
 (* Word parts.  Leaf parts are a pool of (text, markers); structural parts  *)
 (* contain nonterminals.  `g` is the gap of the part's first terminal.      *)
 (***************************************************************************)
-TG(t, g) == [k |-> "t", t |-> t, gap |-> g, lb |-> FALSE, semi |-> FALSE, hd |-> <<>>]
+TG(t, g) == [k |-> "t", t |-> t, gap |-> g, lb |-> FALSE, semi |-> FALSE, hd |-> <<>>, nlk |-> ""]
 
 LeafParts ==
   << [c |-> 0, t |-> "a",        m |-> <<"lit:a">>],
@@ -148,9 +150,9 @@ TopSep(nt, e)     == IF e = "" THEN <<>> ELSE <<(IF nt.top THEN T(e) ELSE IF e =
 
 Alts(nt) ==
   CASE nt.n = "prog" ->
-         << A(0, <<M("ln["), NT("list", 0, TRUE, FALSE, FALSE, ""),  M("]ln"), NL>>),
-            A(1, <<M("ln["), NT("list", 0, TRUE, FALSE, FALSE, ";"), M("]ln"), NL>>),
-            A(1, <<M("ln["), NT("list", 0, TRUE, FALSE, FALSE, "&"), M("]ln"), NL>>) >>
+         << A(0, <<M("ln["), NT("list", 0, TRUE, FALSE, FALSE, ""),  M("]ln"), NLF>>),
+            A(1, <<M("ln["), NT("list", 0, TRUE, FALSE, FALSE, ";"), M("]ln"), NLF>>),
+            A(1, <<M("ln["), NT("list", 0, TRUE, FALSE, FALSE, "&"), M("]ln"), NLF>>) >>
     [] nt.n = "list" ->   \* and-or lists joined by ; or &; the last one carries nt.end
          << A(0, <<SameE(nt, "ao", nt.end)>>),
             A(1, <<SameE(nt, "ao", ";"), SameE(nt, "list", nt.end)>>),
@@ -264,14 +266,14 @@ Alts(nt) ==
          LET body == <<TL("do"), M("do["), Same(nt, "tlist"), M("]do"), T("done"), M("]for")>> IN
          << A(0, <<T("for"), M("for["), T("x"), M("name:x")>> \o body),
             A(1, <<T("for"), M("for["), T("x"), M("name:x"), TS(";"), M("forsemi")>> \o body),
-            A(1, <<T("for"), M("for["), T("x"), M("name:x"), NL>> \o body),
+            A(1, <<T("for"), M("for["), T("x"), M("name:x"), NLB>> \o body),
             A(1, <<T("for"), M("for["), T("i_1"), M("name:i_1"), T("in"), M("in["), Same(nt, "args"), M("]in"), TS(";"), M("forsemi")>> \o body),
             A(1, <<T("for"), M("for["), T("x"), M("name:x"), T("in"), M("in["), M("]in"), TS(";"), M("forsemi")>> \o body),
-            A(1, <<T("for"), M("for["), T("x"), M("name:x"), T("in"), M("in["), Same(nt, "args"), M("]in"), NL>> \o body),
-            A(1, <<T("for"), M("for["), T("x"), M("name:x"), NL, T("in"), M("in["), Same(nt, "args"), M("]in"), NL>> \o body) >>
+            A(1, <<T("for"), M("for["), T("x"), M("name:x"), T("in"), M("in["), Same(nt, "args"), M("]in"), NLB>> \o body),
+            A(1, <<T("for"), M("for["), T("x"), M("name:x"), NLB, T("in"), M("in["), Same(nt, "args"), M("]in"), NLB>> \o body) >>
     [] nt.n = "case"  ->
          << A(0, <<T("case"), M("case["), Word(nt), TL("in"), Same(nt, "items"), T("esac"), M("]case")>>),
-            A(1, <<T("case"), M("case["), Word(nt), NL, TL("in"), Same(nt, "items"), T("esac"), M("]case")>>) >>
+            A(1, <<T("case"), M("case["), Word(nt), NLB, TL("in"), Same(nt, "items"), T("esac"), M("]case")>>) >>
     [] nt.n = "items" ->
          << A(0, <<>>),
             A(1, <<Same(nt, "item"), Same(nt, "items")>>),
@@ -299,5 +301,5 @@ Alts(nt) ==
                                    Sub(nt, <<"sub", "for", "case", "if", "while", "until">>[i]), Same(nt, "redirs0"), M("]c"), M("]fn")>>)]
          \o (IF nt.par THEN <<>> ELSE << A(1, <<M("fn["), T("g_1"), M("name:g_1"), TA("("), TA(")"), M("c["),
                                    Sub(nt, "arith"), Same(nt, "redirs0"), M("]c"), M("]fn")>>) >>)
-         \o << A(1, <<M("fn["), T("f"), M("name:f"), T("("), TL(")"), NL, M("c["), Sub(nt, "grp"), Same(nt, "redirs0"), M("]c"), M("]fn")>>) >>
+         \o << A(1, <<M("fn["), T("f"), M("name:f"), T("("), TL(")"), NLB, M("c["), Sub(nt, "grp"), Same(nt, "redirs0"), M("]c"), M("]fn")>>) >>
 =============================================================================
